@@ -32,6 +32,13 @@ type Case struct {
 	DirectCreate bool `json:"direct_create,omitempty"`
 	// StaggerUS: delay between Start calls of the plans.
 	StaggerUS int `json:"stagger_us,omitempty"`
+	// RacingStarts > 1: every plan is started by that many goroutines at once (behind a barrier) instead of once.
+	RacingStarts int `json:"racing_starts,omitempty"`
+	// CancelStartCtx: Start is called with a context that is cancelled as soon as Start has returned.
+	CancelStartCtx bool `json:"cancel_start_ctx,omitempty"`
+	// OnWaited, if set, is called with a snapshot of the run as soon as every Wait has returned (before the
+	// observation window): lets the caller journal a verdict before a late panic can kill the process.
+	OnWaited func(run *Run) `json:"-"`
 	// WaitTimeoutMS is the watchdog on Wait (>= 100x nominal).
 	WaitTimeoutMS int `json:"wait_timeout_ms"`
 	// GraceMS is the observation window after quiescence.
@@ -265,7 +272,36 @@ func Execute(c *Case) *Run {
 		if pr.SubmitErr != "" {
 			continue
 		}
-		err := ws.Start(ctx, ids[i])
+		var err error
+		switch {
+		case c.RacingStarts > 1:
+			// exactly one of the racers must win; the plan counts as started if any did
+			gate := make(chan struct{})
+			errs := make([]error, c.RacingStarts)
+			var swg sync.WaitGroup
+			for k := 0; k < c.RacingStarts; k++ {
+				swg.Add(1)
+				go func(k int) {
+					defer swg.Done()
+					<-gate
+					errs[k] = ws.Start(ctx, ids[i])
+				}(k)
+			}
+			close(gate)
+			swg.Wait()
+			err = errs[0]
+			for _, e := range errs {
+				if e == nil {
+					err = nil
+				}
+			}
+		case c.CancelStartCtx:
+			sctx, cancel := context.WithCancel(ctx)
+			err = ws.Start(sctx, ids[i])
+			cancel()
+		default:
+			err = ws.Start(ctx, ids[i])
+		}
 		pr.StartErr = errS(err)
 		l.Append(plug.Event{Kind: "ret", API: "Start", PlanID: pr.ID, Plan: c.Plans[i].Name, Err: errS(err)})
 		if err != nil {
@@ -291,6 +327,11 @@ func Execute(c *Case) *Run {
 		}
 	}
 	wg.Wait()
+	if c.OnWaited != nil {
+		run.Events = l.Snapshot()
+		run.GraceSeq = len(run.Events)
+		c.OnWaited(run)
+	}
 
 	grace := time.Duration(c.GraceMS) * time.Millisecond
 	if grace == 0 {
